@@ -220,7 +220,7 @@ def _counted():
 
 FAMILIES = [
     ("(a+)+$", "a", "b"), ("(a*)*b", "a", "c"), ("(a|a)*b", "a", "c"), ("(a|aa)+$", "a", "b"), ("(.*)*x", "a", "b"),
-    ("(a+)\\1+$", "a", "b"), ("(?=(a+)+b)a", "a", "c"), ("(?<=(a+)+b)c", "a", "c"), ("((a+)+)+$", "a", "b"),
+    ("(a+)\\1+$", "a", "b"), ("(?=(a+)+b)a", "a", "c"), ("(?<=(a+)+b)c", "a", "c"), ("(?<=b(a+)+)c", "a", "c"), ("((a+)+)+$", "a", "b"),
     ("(?:a?){20}a{20}", "a", ""), ("^(a+)+$", "a", "!"), ("(?!(a+)+b)a", "a", "c"),
     ("^(?:(?=a)a|a)*$", "a", "!"), ("^(?:a(?<=a)|a(?<=a))*b", "a", ""), ("^(a*)(?:\\1a|a)*$", "a", "!"),
 ]
@@ -293,7 +293,7 @@ def spaces(tier, seed, all_strata=False):
         _sp("c10_counted", "run_single", _counted, "counted quantifiers with n in {0,1,2,255,256,1000,65535,65536,1e6,2^31,1e20}, "
             "1..5000 sequential groups, 1..1000 nested groups/lookaheads, wide classes and alternations", "sweep",
             batch=1, watchdog=30),
-        _sp("c10_work_" + tier, "run_work", lambda: _work(tier), "12 catastrophic-backtracking families x 8 regex-consuming "
+        _sp("c10_work_" + tier, "run_work", lambda: _work(tier), "16 catastrophic-backtracking families x 8 regex-consuming "
             "APIs x subject lengths, with a time limit (work must stop within the poll budget) and without "
             "(work must stay within step_limit x positions); steps counted through the regex hook", "families x lengths",
             batch=2, watchdog=120),
